@@ -423,8 +423,26 @@ class Model:
             return {self.fold(mod, x) for x in e.elts}
         if isinstance(e, ast.Dict):
             return {self.fold(mod, k): self.fold(mod, v) for k, v in zip(e.keys, e.values)}
+        if isinstance(e, ast.Attribute):
+            # members of the standard library's HTTP status table (trusted base: CPython's http module)
+            parts = ast.unparse(e).split(".")
+            r = self.resolve_global(mod, parts[0])
+            dotted = ".".join([r[1], *parts[1:]]) if r and r[0] == "ext" else None
+            if dotted and dotted.startswith("http.HTTPStatus.") and dotted.count(".") == 2:
+                import http
+
+                member = getattr(http.HTTPStatus, dotted.rsplit(".", 1)[1], None)
+                if member is not None:
+                    return int(member)
         if isinstance(e, ast.Call):
             fn = ast.unparse(e.func)
+            if fn in ("int", "str") and len(e.args) == 1 and not e.keywords:
+                v = self.fold(mod, e.args[0])
+                if isinstance(v, (int, str)) and not isinstance(v, bool):
+                    try:
+                        return int(v) if fn == "int" else str(v)
+                    except ValueError:
+                        pass
             if fn in ("re.compile",) and e.args:
                 flags = 0
                 for a in list(e.args[1:]) + [k.value for k in e.keywords if k.arg == "flags"]:
